@@ -192,7 +192,9 @@ def run_sessions(ck, lab, scs):
             if st["c"] not in ("MDTM", "RETR", "LIST", "NLST") and ok_real != exp["ok"]:
                 drift.setdefault("%s: reply class differs" % st["c"], []).append((hist, ob["codes"], exp["ok"]))
             want_dirs = sorted("/".join(d) for d in exp["dirs"] if d)
-            want_files = {"/".join(eval_loc(kf)): "".join(c + ";" for c in v) for kf, v in exp["files"].items()}
+            # (TLC prints the empty function as an empty list)
+            exp_files = exp["files"] if isinstance(exp["files"], dict) else {}
+            want_files = {"/".join(eval_loc(kf)): "".join(c + ";" for c in v) for kf, v in exp_files.items()}
             if ob["dirs"] != want_dirs or ob["files"] != want_files:
                 drift.setdefault("%s: tree below the root differs" % st["c"], []).append((hist, ob["dirs"], ob["files"], want_dirs, want_files))
                 break       # later steps of this scenario start from a different tree
